@@ -38,6 +38,26 @@ func (fr *frame) baseEnv() *SpecEnv {
 	for k, v := range fr.lets {
 		env.vars[k] = v
 	}
+	// source-level local variables (from DebugRef): current SSA value or cell
+	for name, dv := range fr.debugVars {
+		if _, dup := env.vars[name]; dup {
+			continue
+		}
+		if dv.addr {
+			if dv.val.S != "" && dv.val.L == nil {
+				if env.locals == nil {
+					env.locals = map[string]*Loc{}
+				}
+				if pt, ok := under(dv.val.T).(*types.Pointer); ok {
+					env.locals[name] = &Loc{Ref: dv.val.S, BaseT: pt.Elem(), T: pt.Elem()}
+				}
+			}
+			continue
+		}
+		if dv.val.S != "" && dv.val.L == nil {
+			env.vars[name] = dv.val
+		}
+	}
 	// named locals / named results that live in cells
 	for v, val := range fr.vals {
 		if a, ok := v.(*ssa.Alloc); ok && a.Comment != "" && val.S != "" && val.L == nil {
@@ -189,6 +209,7 @@ func (p *Program) verifyFuncPass(con *Contract, prev *VC) (res *funcResult) {
 		vc.assume(env.evalBool(cl.Expr))
 	}
 	fr.setupLock(con, env)
+	vc.rootFrame = fr
 	canary := vc.oblige("canary", con.FuncName+"/canary[false after preconditions must fail]", "true", "false", "")
 	canary.MustFail = true
 
@@ -303,6 +324,10 @@ func (p *Program) verifyFuncPass(con *Contract, prev *VC) (res *funcResult) {
 				seen[label]++
 				vc.oblige("nopanic", fmt.Sprintf("%s/nopanic[%s#%d]", con.FuncName, label, seen[label]), e.Guard, "false", e.Pos)
 			}
+		}
+		for _, cl := range con.clauses("panics_only_if") {
+			c := penv.withMem(fr.entry).evalBool(cl.Expr)
+			vc.oblige("panics_only_if", fmt.Sprintf("%s/panics_only_if[%s]", con.FuncName, clauseLabel(cl)), gPan, c, fmt.Sprintf("%s:%d", cl.File, cl.Line))
 		}
 		for _, cl := range con.clauses("on_panic") {
 			vc.oblige("on_panic", fmt.Sprintf("%s/on_panic[%s]", con.FuncName, clauseLabel(cl)), gPan, penv.evalBool(cl.Expr), fmt.Sprintf("%s:%d", cl.File, cl.Line))
